@@ -10,6 +10,8 @@ For a relocation type, `SPEC[(arch, name)]` gives
   decode(w,P) value designated by the relocated bytes, w = little-endian integer of the bytes
   mask        bits of w the relocation may modify
   pre         alignment facts about S and P the ISA requires (assumed; ppci asserts them)
+  wrap        (optional) n: the ISA computes the target modulo 2**n (a displacement as wide as the address
+              space); S and P are then assumed to be addresses of that space, i.e. < 2**n
   endian      (optional, default 'little') byte order of the instruction word: `word(bytes, endian)`
               turns the relocated bytes into the integer w that decode/mask talk about
 All functions run on plain ints and on symx proxies alike.
@@ -233,7 +235,7 @@ _add(("mips",), "abs26", size=4, kind="branch",
 _mb_imm32 = lambda w: (bits(w, 47, 32) << 16) | bits(w, 15, 0)
 # pc-relative branches: PC <- PC + imm32 where PC is the address of the branch itself (= P + 4)
 _add(("microblaze",), "R_MICROBLAZE_64_PCREL", size=8, endian="big", kind="branch",
-     decode=lambda w, P: (P + 4 + sext(_mb_imm32(w), 32)) & M32, mask=0x0000FFFF0000FFFF, pre=ALIGN4)
+     decode=lambda w, P: (P + 4 + sext(_mb_imm32(w), 32)) & M32, mask=0x0000FFFF0000FFFF, pre=ALIGN4, wrap=32)
 _add(("microblaze",), "R_MICROBLAZE_64_ABS", size=8, endian="big", kind="abs",
      decode=lambda w, P: _mb_imm32(w), mask=0x0000FFFF0000FFFF, pre=lambda S, P: P % 4 == 0)
 
@@ -262,7 +264,7 @@ _add(XT, "ri16", size=3, kind="branch",
 # Bcc/BRA/BSR with 8-bit displacement field 0xFF: a 32-bit displacement follows the opcode word;
 # target = (address of the opcode word + 2) + disp32 = address of the displacement field + disp32 (mod 2**32)
 _add(("m68k",), "branch_rel32", size=4, endian="big", kind="branch",
-     decode=lambda w, P: (P + sext(w, 32)) & M32, mask=M32, pre=EVEN2)
+     decode=lambda w, P: (P + sext(w, 32)) & M32, mask=M32, pre=EVEN2, wrap=32)
 # (d16,PC): effective address = address of the extension word + sext(d16)
 _add(("m68k",), "rel16", size=2, endian="big", kind="branch", decode=lambda w, P: P + sext(w, 16),
      mask=0xFFFF, pre=lambda S, P: P % 2 == 0)
